@@ -2,7 +2,9 @@
 EXTENDS FlushScen
 DB2 == <<"A", "B">>
 Key1 == <<"k1">>
-Key2 == <<"k1", "k2">>
+Key3 == <<"k1", "k2", "k3">>
+PutK1 == {"k1"}
+PutK12 == {"k1", "k2"}
 Val1 == {1}
 Val2 == {1, 2}
 ====
